@@ -148,7 +148,7 @@ func init() {
 						}
 					}
 					ev := map[string]any{"ev": "c09", "id": c.Id, "cut": cut, "of": len(stmts), "prefix": strings.Join(texts[:cut], "; "), "prefixFailed": failed,
-						"snapErr": false, "snapPanic": false, "restoreErr": false, "errtext": "", "a": []hostOut{}, "b": []hostOut{}, "progs": []string{}, "varsA": "", "varsB": "", "rt": true, "aliased": hasAliasing(vm1.Attrs)}
+						"snapErr": false, "snapPanic": false, "restoreErr": false, "errtext": "", "a": []hostOut{}, "b": []hostOut{}, "progs": []string{}, "varsA": "", "varsB": "", "rt": true, "aliased": hasAliasing(vm1.Attrs), "flagBody": false}
 					var snap []byte
 					var serr error
 					g := guard("snapshot", func() { snap, serr = vm1.Attrs.ToJSON() })
@@ -193,6 +193,10 @@ func init() {
 			prefix string
 			progs  []string
 		}{
+			// bodies compiled under parse-time flags that the VM does not have (a macro line; the switches of an st value): after a
+			// restore the text is compiled again, under the VM's own flags (known finding KF-C09-2) - the VM of these probes has WoD off
+			{"// #EnableDice wod true\nfunc fw() { return 3a5 }", []string{"fw()", "fw() + 1"}},
+			{"// #EnableDice wod true\n&cw = 2a6 + 1", []string{"cw", "cw"}},
 			{"x = [1]; y = x", []string{"y.push(2); x", "x", "y"}},
 			{"x = {'a': 1}; y = [x, x]", []string{"y[0].b = 2; y[1]", "x"}},
 			{"func g1(pa) { if pa < 1 { return 0 }; pa + g1(pa - 1) }", []string{"g1(3)", "g1(0)", "g1"}},
@@ -215,9 +219,11 @@ func init() {
 		for pi, pr := range probes {
 			vm1 := newSeededVM(7)
 			vm1.Config.OpCountLimit = 200000
+			flagBody := strings.Contains(pr.prefix, "#EnableDice wod true")
+			vm1.Config.EnableDiceWoD = !flagBody
 			runOne(vm1, pr.prefix)
 			ev := map[string]any{"ev": "c09", "id": 990000 + pi, "cut": 1, "of": 1, "prefix": pr.prefix, "prefixFailed": false,
-				"snapErr": false, "snapPanic": false, "restoreErr": false, "errtext": "", "a": []hostOut{}, "b": []hostOut{}, "progs": pr.progs, "varsA": "", "varsB": "", "rt": true, "aliased": hasAliasing(vm1.Attrs)}
+				"snapErr": false, "snapPanic": false, "restoreErr": false, "errtext": "", "a": []hostOut{}, "b": []hostOut{}, "progs": pr.progs, "varsA": "", "varsB": "", "rt": true, "aliased": hasAliasing(vm1.Attrs), "flagBody": flagBody}
 			snap, serr := vm1.Attrs.ToJSON()
 			if serr != nil {
 				ev["snapErr"], ev["errtext"] = true, serr.Error()
@@ -232,6 +238,7 @@ func init() {
 				w.Write(ev)
 				continue
 			}
+			vm2.Config.EnableDiceWoD = !flagBody
 			ev["varsA"], ev["varsB"] = varsOf(vm1), varsOf(vm2)
 			var oa, ob []hostOut
 			for _, p := range pr.progs {
@@ -258,6 +265,11 @@ var c09Unrepresentable = func() []string {
 		{"ud = {}; ud['k'] = [ud]", "ud"},
 		{"ud = {}; ue = {'p': ud}; ud.q = ue", "ue"},
 		{"ua = []; ud = {'l': ua}; ua.push(ud)", "ua"},
+		// a computed value whose attributes lead back to it; the scope object
+		{"&uc = 1; &uc.me = &uc", "&uc"},
+		{"&uc = 1; &uo = 2; &uc.o = &uo; &uo.o = &uc", "&uc"},
+		{"&uc = 1; uh = [&uc]; &uc.held = uh", "&uc"},
+		{"ut = this", "ut"},
 		{"uf = 2.0 ** 1024", "uf"},
 		{"uf = (2.0 ** 1024) - (2.0 ** 1024)", "uf"},
 		{"uf = 0 - (2.0 ** 1024)", "uf"},
@@ -267,6 +279,9 @@ var c09Unrepresentable = func() []string {
 	var out []string
 	for _, a := range atoms {
 		for _, pl := range places {
+			if strings.HasPrefix(a.expr, "&") && pl == "x = %s; x" {
+				pl = "x = %s; &x" // reading x would evaluate the computed value; the value itself is wanted
+			}
 			out = append(out, a.setup+"; "+fmt.Sprintf(pl, a.expr))
 		}
 	}
@@ -278,7 +293,12 @@ func init() {
 		fs := newFlags("c09-cycles")
 		out := fs.String("out", "", "events ndjson")
 		only := fs.Int("only", -1, "run a single script (crash attribution)")
+		count := fs.Bool("count", false, "print the number of scripts")
 		fs.Parse(args)
+		if *count {
+			emitSummary(map[string]any{"scripts": len(c09Unrepresentable)})
+			return 0
+		}
 		debug.SetMaxStack(64 << 20)
 		w := newNDWriter(*out)
 		defer w.Close()
